@@ -25,7 +25,7 @@ fn crc32c_bitwise(data: &[u8]) -> u32 {
 
 macro_rules! k_assert_slice_crc {
     ($name:ident, $n:expr) => {
-        // oblig: C05.a.assert_slice_crc kind=bounded(data<=2bytes) timeout=900 tier=thorough
+        // oblig: C05.a.assert_slice_crc kind=bounded(data<=2bytes) timeout=2400 tier=thorough
         #[kani::proof]
         #[kani::unwind(10)]
         #[kani::stub(std::backtrace::Backtrace::capture, bt_stub)]
